@@ -47,6 +47,13 @@ CHECKS["C02"] = dict(
    note="Trusted: ref/refv + ref/decimal. Not asserted: non-ASCII string lengths, alternative spellings for const/enum, RFC 3339 corners left to the Go standard library, email/uri beyond curated lists.",
    design="4/C02")
 
+CHECKS["C08"] = dict(
+   category="exploration", engine="B small-scope enumeration, permutation-invariance + reference predicate",
+   technique="exhaustive enumeration of rule subsets x parameter variants x ALL permutations; metamorphic order-invariance plus three-valued reference applicability predicate",
+   text="10 node kinds x 3 positions x all subsets of <= 3 (thorough 4) of 18 rule names plus an unknown name and duplicated names x parameter variants, each compiled in every permutation: Check's verdict must not depend on the order, and must equal the applicability/consistency predicate written from the statement wherever that predicate is decided.",
+   note="Trusted: ref/wf predicate and ref/refv. Error codes are not compared; statement-silent combinations are Unspecified (listed in the evidence assumptions).",
+   design="4/C08")
+
 NOT_YET = {
 }
 
